@@ -357,12 +357,12 @@ Definition op_touches_std (o : op) : bool := match o with AssignStd _ => true | 
 
 Definition field_of (n : list Z) (r : xrec) : option (list Z) := lookup n (snd r).
 
-(* a record is laid out as the format says *)
-Definition rec_wfb (std : Z) (ex : list edim) (r : xrec) : bool :=
-  (len (fst r) =? std)
-  && (length (snd r) =? length ex)%nat
-  && forallb (fun p => name_eqb (fst (fst p)) (ed_name (snd p)) && (len (snd (fst p)) =? et_size (ed_type (snd p))))
-             (combine (snd r) ex).
+(* a record is laid out as the format says: the standard block, then one entry per extra dimension, in order,
+   under its name and of its size *)
+Definition rec_wf (std : Z) (ex : list edim) (r : xrec) : Prop :=
+  len (fst r) = std
+  /\ map fst (snd r) = extra_names ex
+  /\ map (fun kv => len (snd kv)) (snd r) = map (fun d => et_size (ed_type d)) ex.
 
 (* (I3) the extra-bytes VLR: exactly one, describing exactly the extra dimensions in order, iff there are any *)
 Definition vlr_inv (ex : list edim) (vl : list vlr) : Prop :=
@@ -373,10 +373,9 @@ Definition vlr_inv (ex : list edim) (vl : list vlr) : Prop :=
 
 Record Inv (s : state) : Prop := mkInv {
   inv_fmt : exists std, std_size (st_fmt s) = Some std /\ 0 <= std
-            /\ forall r, In r (st_recs s) -> rec_wfb std (st_extras s) r = true                      (* layout *)
-               /\ len (rec_bytes r) = std + extras_size (st_extras s);                                (* (I2) *)
+            /\ forall r, In r (st_recs s) -> rec_wf std (st_extras s) r;        (* layout; gives (I2), see rec_wf_len *)
   inv_dims : forallb edim_okb (st_extras s) = true;
   inv_names : nodupb (extra_names (st_extras s)) = true
               /\ forallb (fun n => negb (mem_name n (std_names (st_fmt s)))) (extra_names (st_extras s)) = true;
-  inv_vlr : vlr_inv (st_extras s) (st_vlrs s)                                                          (* (I3) *)
+  inv_vlr : vlr_inv (st_extras s) (st_vlrs s)                                    (* (I3) *)
 }.
